@@ -1,7 +1,7 @@
 (* C04 - Repetition, pooling and totals obey the counting laws.
    Only property theorems here; proofs are in Proofs/RepeatP.v. *)
 From Coq Require Import ZArith List Permutation.
-From Dyce Require Import Base.Sums Base.Order Base.Hist Base.Brute Base.QcOrd Model.Select Model.Pool Proofs.RepeatP.
+From Dyce Require Import Base.Sums Base.Order Base.Hist Base.Brute Base.QcOrd Model.Select Model.Pool Proofs.RepeatP Exec.Run Proofs.QcInstanceP.
 Import ListNotations.
 
 (* Outcome addition is assumed commutative, associative with a left unit (true of Python numbers). *)
@@ -65,6 +65,18 @@ Print Assumptions C04_pool_total.
 Theorem C04_pool_of_copies : forall {T} (O : ord T) n (h : hist T), total h <> 0%Z -> mkP O (repeat h n) = repeat h n.
 Proof. exact @pool_of_copies. Qed.
 Print Assumptions C04_pool_of_copies.
+
+(* for exactly the functions the correspondence check evaluates: no hypothesis about addition left *)
+Theorem C04_matmul_is_nfold_sum_executable_instance : forall n h z, (1 <= n)%Z ->
+  exists r, hmatmul VO Vzero Vadd n h = Ok r /\
+    cnt VO r z = bsum VO h (Z.to_nat n) (fun l => if eqb VO (tsum Vzero Vadd l) z then 1 else 0)%Z /\
+    total r = zpow (total h) (Z.to_nat n).
+Proof. exact hmatmul_cnt_Qc. Qed.
+Print Assumptions C04_matmul_is_nfold_sum_executable_instance.
+Theorem C04_pool_sum_executable_instance : forall (p : list (hist Qc)) z, p <> [] ->
+  cnt VO (sum_h VO Vzero Vadd p) z = pbsum VO p (fun l => if eqb VO (tsum Vzero Vadd l) z then 1 else 0)%Z.
+Proof. exact sum_h_cnt_Qc. Qed.
+Print Assumptions C04_pool_sum_executable_instance.
 
 Example C04_nonvacuous :
   hmatmul VO (qc 0 1) Qcanon.Qcplus 2 [(qc 1 1, 1%Z); (qc 2 1, 3%Z)] = Ok [(qc 2 1, 1%Z); (qc 3 1, 6%Z); (qc 4 1, 9%Z)] /\
